@@ -538,3 +538,98 @@ func own2tid(own, ch *tch) datatransfer.TransferID {
 	}
 	return ch.chid.ID
 }
+
+// TestC16StaleOpen: pause, resume and cancel must address the channel's CURRENT graphsync request
+// also after an OpenChannel that gave up. The caller's context ends while graphsync is still running
+// the outgoing-request hook (or right after), so the open may return before it has consumed the id the
+// hook parked for it; a later OpenChannel on the same channel object then issues a new request. Every
+// control that follows must carry the id of that newest request.
+func TestC16StaleOpen(t *testing.T) {
+	vf.Run(t, "C16StaleOpen", vf.Opts{Bubble: true, DefaultN: 24}, func(c *vf.Case) {
+		r := c.Rng
+		peers := gen.Peers(r, 2)
+		self, other := peers[0], peers[1]
+		f := newTrFix(c, self)
+		v := gen.SimpleVoucher("VT0", "v")
+		initiator := c.Index%2 == 0 // pull initiator, or push responder (both issue the graphsync request)
+		chid := datatransfer.ChannelID{Initiator: self, Responder: other, ID: datatransfer.TransferID(1 + r.Intn(1<<20))}
+		var msg datatransfer.Message
+		if initiator {
+			msg, _ = message.NewRequest(chid.ID, false, true, &v, dummyCid, gen.AllSelector)
+		} else {
+			chid = datatransfer.ChannelID{Initiator: other, Responder: self, ID: chid.ID}
+			msg, _ = message.NewResponse(chid.ID, true, false, nil)
+		}
+		abandoned := 0
+		for i := 1 + r.Intn(3); i > 0; i-- {
+			ctx, cancel := context.WithCancel(bg)
+			when := r.Intn(3) // the caller gives up: 0 before the request is issued, 1 while the hook runs, 2 just after
+			if when == 0 {
+				cancel()
+			}
+			f.gs.BeforeHook = func() {
+				if when == 1 {
+					cancel()
+				}
+			}
+			err := f.tr.OpenChannel(ctx, other, chid, dummyLink, gen.AllSelector, nil, msg)
+			cancel()
+			settle()
+			if err != nil {
+				abandoned++
+			}
+		}
+		f.gs.BeforeHook = nil
+		c.Count("abandoned_opens", abandoned)
+		// the retry
+		if err := f.tr.OpenChannel(bg, other, chid, dummyLink, gen.AllSelector, nil, msg); err != nil {
+			c.Violation("C16", "open-failed", "OpenChannel after %d abandoned opens failed: %v", abandoned, err)
+			f.tr.Shutdown(bg)
+			return
+		}
+		settle()
+		var cur graphsync.RequestID
+		nreq := 0
+		for _, gc := range f.gs.Calls() {
+			if gc.Op == "request" {
+				cur = gc.ID
+				nreq++
+			}
+		}
+		for i := 0; i < 3; i++ {
+			n := f.gs.Len()
+			op := []string{"pause", "resume", "close"}[i]
+			ctx, cancel := context.WithTimeout(bg, 5*time.Second)
+			switch i {
+			case 0:
+				f.tr.PauseChannel(ctx, chid)
+			case 1:
+				f.tr.ResumeChannel(ctx, nil, chid)
+			case 2:
+				f.tr.CloseChannel(ctx, chid)
+			}
+			cancel()
+			settle()
+			reached := false
+			for _, gc := range f.gs.Calls()[n:] {
+				if gc.Op == "pause" || gc.Op == "unpause" || gc.Op == "cancel" {
+					reached = true
+					if gc.ID != cur {
+						c.Violation("C16", "control-on-stale-request "+gc.Op, "%s after %d abandoned opens reached graphsync with request id %v, the channel's current request is %v (%d requests issued)", op, abandoned, gc.ID, cur, nreq)
+					}
+				}
+			}
+			if reached {
+				c.Count("controls_after_abandoned_open", 1)
+			}
+		}
+		c.Mark("initiator=%v abandoned=%d requests=%d", initiator, abandoned, nreq)
+		c.NonTrivial()
+		if c.Index < 2 {
+			c.Sample(map[string]any{"engine": "stale-open", "we_initiated": initiator, "abandoned_opens": abandoned, "graphsync_requests_issued": nreq})
+		}
+		time.Sleep(10 * time.Second)
+		f.tr.Shutdown(bg)
+		time.Sleep(time.Minute)
+	})
+}
